@@ -215,7 +215,7 @@ pub fn ibc_denom_name() -> &'static str {
 
 pub fn project_treasury(w: &World) -> Value {
     if !w.t_inst {
-        return json!({"inst": false, "admin": "", "pending": "", "minTime": -1, "trader": "", "routes": []});
+        return json!({"inst": false, "admin": "", "pending": "", "minTime": -1, "trader": "", "routes": [], "qpanic": false});
     }
     let nm = |s: &str| w.names.nm(s);
     let q = w.treasury_query();
@@ -240,5 +240,7 @@ pub fn project_treasury(w: &World) -> Value {
         },
         "trader": nm(q["trader"].as_str().unwrap_or("")),
         "routes": routes,
+        // the Config query is an entry point too: it must answer, never panic
+        "qpanic": q.get("__panic").is_some(),
     })
 }
